@@ -886,6 +886,7 @@ func (p *c16) RunCase(ctx *runner.Ctx) runner.CaseResult {
 		}
 	case c == nw+9:
 		p.malformedKeys(x, ctx)
+		p.updatesWithoutExpression(x)
 	case c < nw+12:
 		p.keyConditions(x, ctx)
 	case c == nw+12:
@@ -899,3 +900,51 @@ func (p *c16) RunCase(ctx *runner.Ctx) runner.CaseResult {
 }
 
 func (p *c16) Exhaustive(string) bool { return true }
+
+// updatesWithoutExpression: the placeholder rules do not depend on WHICH expressions a request carries. An UpdateItem
+// that has no UpdateExpression (only a condition, or nothing) and supplies a name or value nobody uses, uses a name
+// nobody supplied, or has a malformed placeholder key is refused like any other request that breaks these rules -
+// whether the library refuses such updates wholesale (it does: listed finding of C01) or performs them.
+func (p *c16) updatesWithoutExpression(x *res) {
+	spec := mon.SpecHashOnly("tbl16u")
+	defects := []struct {
+		name string
+		op   adapt.Op
+	}{
+		{"unused-name", adapt.Op{Cond: "attribute_not_exists(#p)", Names: map[string]string{"#p": "h", "#surplus": "other"}}},
+		{"unused-value", adapt.Op{Cond: "attribute_not_exists(h)", Values: val.Item{":surplus": val.Num("1")}}},
+		{"undefined-name", adapt.Op{Cond: "attribute_not_exists(#never)"}},
+		// (a :value that was never supplied is the listed finding of the placeholder matrix; not repeated here)
+		{"names-without-any-expression", adapt.Op{Names: map[string]string{"#p": "h"}}},
+		{"values-without-any-expression", adapt.Op{Values: val.Item{":v": val.Num("1")}}},
+		{"malformed-name-key", adapt.Op{Cond: "attribute_not_exists(#p)", Names: map[string]string{"#p": "h", "p": "h"}}},
+		{"malformed-value-key", adapt.Op{Cond: "a = :v", Values: val.Item{":v": val.Num("1"), "v": val.Num("1")}}},
+		{"reserved-word-in-condition", adapt.Op{Cond: "attribute_not_exists(name)"}},
+	}
+	for _, adapter := range adapt.Adapters {
+		for _, d := range defects {
+			for _, present := range []bool{false, true} {
+				cl, _, ds := freshClient(adapter, spec)
+				if ds != nil {
+					return
+				}
+				if present {
+					cl.Do(adapt.Op{Kind: adapt.OpPut, Table: spec.Name, Item: val.Item{"h": val.Str("k"), "a": val.Num("1")}})
+				}
+				op := d.op
+				op.Kind, op.Table, op.Key, op.NoUpdate = adapt.OpUpdate, spec.Name, val.Item{"h": val.Str("k")}, true
+				got := cl.Do(op)
+				x.r.Evals++
+				x.r.Counters["updates_without_expression_breaking_a_placeholder_rule"]++
+				x.fp(true, "no-expression-update|%s|%s|%v", adapter, d.name, present)
+				wit := map[string]interface{}{"adapter": adapter, "defect": d.name, "item_present": present, "request": op, "outcome": got}
+				switch got.Class {
+				case adapt.ClsRuntime:
+					x.viol("runtime-panic", got.Site, fmt.Sprintf("[%s] UpdateItem without UpdateExpression (%s): panic %s", adapter, d.name, got.Msg), wit)
+				case adapt.ClsOK, adapt.ClsCondFailed:
+					x.viol("placeholder-rule-not-enforced", "update-without-expression/"+d.name, fmt.Sprintf("[%s] UpdateItem without UpdateExpression and with the defect %q is answered %s", adapter, d.name, got.Class), wit)
+				}
+			}
+		}
+	}
+}
